@@ -218,6 +218,7 @@ impl Monitor for C03 {
         let mut rng = Rng::for_trial(cfg.seed, "C03", idx);
         let vi = (idx % 17) as usize;
         let n = nl[((idx / 17) % nl.len() as u64) as usize];
+        let n = super::jitter_n(cfg, n, 1, 40, &mut rng);
         let style = (idx / (17 * nl.len() as u64)) % 6;
         let sclass = SUFFIX[((idx / (17 * nl.len() as u64 * 6)) % 4) as usize];
         let rep = idx / (17 * nl.len() as u64 * 24);
